@@ -49,7 +49,7 @@ class NonZero:
         self._sum = {}
         self._in = {}
 
-    def edge_facts(self, b, bb):
+    def edge_facts(self, b, bb, cur=()):
         """For a switch block: {target: set(keys known nonzero on that edge)}."""
         t = b.term(bb)
         out = {}
@@ -69,6 +69,11 @@ class NonZero:
                 neg = not neg
                 p2 = op_place(d[3]["rv"]["a"])
                 d = def_of_local(b, p2["l"]) if p2 else None
+            # a boolean with conditional facts (see facts_in): its true edge yields them
+            x0 = "_%d" % pl["l"]
+            imps = {k[2] for k in cur if isinstance(k, tuple) and k[0] == "imp" and k[1] == x0}
+            if imps and not pl["p"]:
+                out.setdefault(true_t, set()).update(imps)
             if d and d[0] == "assign" and d[3]["rv"]["k"] == "bin" and d[3]["rv"]["op"] in ZERO_OPS:
                 rv = d[3]["rv"]
                 a, c = rv["a"], rv["b"]
@@ -92,7 +97,7 @@ class NonZero:
                 if key is not None:
                     if neg:
                         on_true = not on_true
-                    out[true_t if on_true else false_t] = {key}
+                    out.setdefault(true_t if on_true else false_t, set()).add(key)
             return out
         # discriminant of Try::branch(V(..)) or of V(..) itself: Continue / Ok edge
         d = def_of_local(b, pl["l"])
@@ -120,40 +125,74 @@ class NonZero:
                             if k:
                                 keys.add(k)
                 if keys:
+                    listed = [v for v, _ in t["targets"]]
                     for v, tg in t["targets"]:
                         if v == 0:
-                            out[tg] = keys
+                            out.setdefault(tg, set()).update(keys)
+                    if 0 not in listed and listed == [1] and (b.term(t["otherwise"]) or {}).get("k") != "unreachable":
+                        out.setdefault(t["otherwise"], set()).update(keys)      # `if let Err(e) = v(..) { return .. }`: the fall-through is Ok
         return out
 
     def facts_in(self, b):
-        if b.path in self._in:
-            return self._in[b.path]
+        if (b.path, hasattr(b, "base")) in self._in:
+            return self._in[(b.path, hasattr(b, "base"))]
         n = len(b.blocks)
         TOP = None
         IN = {0: frozenset()}
         work = [0]
         preds = b.preds()
+        def dead(k, x):
+            return k == x or k.startswith(x + ".") or k.startswith(x + "*")
+
+        def holds(x, S):
+            if x in S:
+                return True
+            if isinstance(x, tuple) and x[0] == "imp":
+                return ("false", x[1]) in S or x[2] in S
+            return False
         while work:
             bb = work.pop()
-            cur = IN[bb]
-            ef = self.edge_facts(b, bb)
-            # kill facts about locals reassigned in this block
-            killed = set()
+            cur = set(IN[bb])
+            # statements in order: a reassigned local loses its facts; a boolean local gains conditional facts
+            #   L = const false            ->  ("false", L)              (L true implies anything)
+            #   L = <any other value>      ->  ("imp", L, K) for every K known non-zero here (they hold whatever L turns out to be)
+            #   L = copy/move M            ->  M's conditional facts carry over
+            # (`a != 0 && b != 0 && a % b == 0` computed as a VALUE - e.g. returned by a predicate helper - is materialised this way)
             for s in b.blocks[bb]["stmts"]:
-                if s["k"] == "assign" and not s["lhs"]["p"]:
-                    killed.add("_%d" % s["lhs"]["l"])
+                if s["k"] != "assign" or s["lhs"]["p"]:
+                    continue
+                x = "_%d" % s["lhs"]["l"]
+                carried = set()
+                rv = s["rv"]
+                if rv["k"] == "use" and rv["op"].get("k") in ("copy", "move") and not rv["op"]["pl"]["p"]:
+                    y = "_%d" % rv["op"]["pl"]["l"]
+                    for k in cur:
+                        if isinstance(k, tuple) and k[1] == y:
+                            carried.add((k[0], x) + tuple(k[2:]))
+                cur = {k for k in cur if not ((isinstance(k, str) and dead(k, x)) or (isinstance(k, tuple) and (k[1] == x or (k[0] == "imp" and dead(k[2], x)))))}
+                if b.local_ty(s["lhs"]["l"]) == "bool":
+                    if rv["k"] == "use" and rv["op"].get("k") == "const" and rv["op"].get("val") in (0, False):
+                        cur.add(("false", x))
+                    else:
+                        cur |= {("imp", x, k) for k in cur if isinstance(k, str)}
+                cur |= carried
+            ef = self.edge_facts(b, bb, cur)
             t = b.term(bb)
             if t and t["k"] == "call" and not t["dest"]["p"]:
-                killed.add("_%d" % t["dest"]["l"])
-            base = frozenset(k for k in cur if not any(k == x or k.startswith(x + ".") or k.startswith(x + "*") for x in killed))
+                x = "_%d" % t["dest"]["l"]
+                cur = {k for k in cur if not ((isinstance(k, str) and dead(k, x)) or (isinstance(k, tuple) and (k[1] == x or (k[0] == "imp" and dead(k[2], x)))))}
+            base = frozenset(cur)
             for s2 in b.succs(bb):
                 new = base | frozenset(ef.get(s2, ()))
                 old = IN.get(s2)
-                merged = new if old is None else (old & new)
+                if old is None:
+                    merged = new
+                else:
+                    merged = frozenset(x for x in (old | new) if holds(x, old) and holds(x, new))
                 if merged != old:
                     IN[s2] = merged
                     work.append(s2)
-        self._in[b.path] = IN
+        self._in[(b.path, hasattr(b, "base"))] = IN
         return IN
 
     def ok_nonzero(self, vb, depth=0):
@@ -163,6 +202,7 @@ class NonZero:
         self._sum[vb.path] = set()
         if depth > 3 or "Result<" not in vb.ret_ty:
             return set()
+        vb = self.f.view(vb)          # private predicate helpers of the validator are part of it
         IN = self.facts_in(vb)
         ok_blocks = []
         for bi, blk in enumerate(vb.blocks):
